@@ -690,7 +690,11 @@ impl DbInner {
 		let might_wait_because_the_queue_is_full = self.options.with_background_thread;
 		#[cfg(not(any(test, feature = "instrumentation")))]
 		let might_wait_because_the_queue_is_full = true;
-		if might_wait_because_the_queue_is_full && queue.bytes > MAX_COMMIT_QUEUE_BYTES {
+		if might_wait_because_the_queue_is_full &&
+			queue.bytes > MAX_COMMIT_QUEUE_BYTES &&
+			// Workers that have stopped will never drain the queue nor wake us up.
+			self.bg_err.lock().is_none()
+		{
 			log::debug!(target: "parity-db", "Waiting, queue size={}", queue.bytes);
 			self.commit_queue_full_cv.wait(&mut queue);
 		}
@@ -1470,11 +1474,16 @@ impl DbInner {
 	fn store_err(&self, result: Result<()>) {
 		if let Err(e) = result {
 			log::warn!(target: "parity-db", "Background worker error: {}", e);
-			let mut err = self.bg_err.lock();
-			if err.is_none() {
-				*err = Some(Arc::new(e));
-				self.shutdown();
+			{
+				let mut err = self.bg_err.lock();
+				if err.is_none() {
+					*err = Some(Arc::new(e));
+					self.shutdown();
+				}
 			}
+			// Under the queue lock: a committer that has just found no error is then either
+			// not waiting yet (and holds the lock until it is) or already waiting.
+			let _queue = self.commit_queue.lock();
 			self.commit_queue_full_cv.notify_all();
 		}
 	}
